@@ -216,6 +216,9 @@ theorem afterDestBody_ok (W : WFSegs src segs) (hnb : NB → NoBlank src segs) {
       obtain ⟨r2, c2, g1, g2, l2, p2, k2, _⟩ := advance_bp W h1 hv (n := 1) (by omega) (by simp only [List.length_cons]; omega)
       obtain ⟨⟨sgs, found⟩, r3, c3, k1, h3, l3, p3, kf, ksg⟩ := findClosure_bp W g2 (BCur.peek src segs c1)
         (if (BCur.peek src segs c1 == 40) = true then 41 else BCur.peek src segs c1)
+        (by intro e; split at e
+            · cases e
+            · rw [e] at hop; simp at hop)
       have hfirst := first_le_p F g2.abs.wf
       have hn := defNoTitle_ok W hnb h h3 refs L hL hk label dest
       have ht : found = true → ∀ nl, DefOK NB src segs L c.p
@@ -278,7 +281,7 @@ theorem defTail_ok (W : WFSegs src segs) (hnb : NB → NoBlank src segs) {r : Bl
   have F := segFacts W
   obtain ⟨r1, c1, g1, g2, l1, _, _, p1⟩ := advance_bp W h hv (n := pos + 1) (by omega) (by omega)
   have p1' := p1 hz (by omega)
-  obtain ⟨y, r2, c2, k1, h2, l2, p2, _, ksg⟩ := findClosure_bp W g2 91 93
+  obtain ⟨y, r2, c2, k1, h2, l2, p2, _, ksg⟩ := findClosure_bp W g2 91 93 (by decide)
   have hfirst := first_le_p F g2.abs.wf
   obtain ⟨sv, hsv⟩ := segsValue_ok F h2.abs (y.1.getD []) (fun s hs => by have := ksg s hs; exact ⟨by omega, this.2⟩)
   obtain ⟨lab, hlab⟩ := closureValue_ok hsv
